@@ -202,6 +202,128 @@ func runC20(c *Ctx) {
 	}
 	prioScenarios(c, n, []byte{'a', 'b', 'c', 'd', 'e'})
 	retryScenarios(c, n/4)
+	zeroWidthScenarios(c, n/4)
+}
+
+// zeroWidthScenarios: inline parsers that accept without consuming anything (the InlineParser
+// contract allows a node with no advance: a marker node, say).  Such a parser, asked first by
+// priority, wins its turn like any other: its node is appended and the same position is offered
+// again to the whole candidate list, where it now declines and the next one by priority gets the
+// byte.  Each probe here is scripted per position: 'z' accepts once without advancing and
+// declines afterwards, 'c' accepts and consumes the byte, 'd' declines, 'm' moves the reader and
+// declines.
+type zwInline struct {
+	id, prio int
+	mode     byte
+	fired    map[int]bool
+	log      *[]string
+}
+
+func (b *zwInline) Trigger() []byte { return []byte{'@'} }
+func (b *zwInline) Parse(parent ast.Node, block text.Reader, pc parser.Context) ast.Node {
+	*b.log = append(*b.log, itoa(b.id))
+	_, seg := block.PeekLine()
+	switch b.mode {
+	case 'z':
+		if b.fired[seg.Start] {
+			return nil
+		}
+		b.fired[seg.Start] = true
+		return ast.NewString([]byte(fmt.Sprintf("{%d}", b.id)))
+	case 'c':
+		block.Advance(1)
+		return ast.NewString([]byte(fmt.Sprintf("{%d}", b.id)))
+	case 'm':
+		block.Advance(1)
+		return nil
+	}
+	return nil
+}
+
+func zeroWidthScenarios(c *Ctx, n int) {
+	pool := []int{50, 150, 450, 550, 950, 1050, -7, 2000, math.MinInt, math.MaxInt}
+	docs := []string{"x@y", "@", "x@@y", "a @ b\n@", "*x@y*", "[x@y](/u)"}
+	for it := 0; it < n; it++ {
+		k := 2 + c.R.Intn(3)
+		perm := append([]int(nil), pool...)
+		for i := len(perm) - 1; i > 0; i-- {
+			j := c.R.Intn(i + 1)
+			perm[i], perm[j] = perm[j], perm[i]
+		}
+		var log []string
+		var ps []*zwInline
+		var opts []goldmark.Option
+		var later []parser.Option
+		desc := ""
+		for i := 0; i < k; i++ {
+			p := &zwInline{id: i + 1, prio: perm[i], mode: "zzcdm"[c.R.Intn(5)], fired: map[int]bool{}, log: &log}
+			ps = append(ps, p)
+			desc += fmt.Sprintf("%d:prio=%d:%c ", p.id, p.prio, p.mode)
+			po := parser.WithInlineParsers(util.Prioritized(p, p.prio))
+			switch c.R.Intn(3) {
+			case 0:
+				opts = append(opts, goldmark.WithParserOptions(po))
+			case 1:
+				opts = append(opts, goldmark.WithExtensions(extFunc(func(m goldmark.Markdown) { m.Parser().AddOptions(po) })))
+			default:
+				later = append(later, po)
+			}
+		}
+		md := goldmark.New(opts...)
+		md.Parser().AddOptions(later...)
+		doc := docs[it%len(docs)]
+		out, errS, panicS := convertSafe(md, []byte(doc))
+		obs := strings.Join(log, ",") + "|" + string(out)
+		if errS != "" || panicS != "" {
+			obs = "FAIL:" + errS + panicS
+		}
+		// the oracle: at every '@', candidates in ascending priority; a zero-width accept restarts
+		s := append([]*zwInline{}, ps...)
+		sort.SliceStable(s, func(i, j int) bool { return s[i].prio < s[j].prio })
+		var wlog []string
+		var wtext strings.Builder
+		for pos := 0; pos < len(doc); pos++ {
+			if doc[pos] != '@' {
+				wtext.WriteByte(doc[pos])
+				continue
+			}
+			fired := map[int]bool{}
+			consumed := false
+		again:
+			for _, p := range s {
+				wlog = append(wlog, itoa(p.id))
+				if p.mode == 'z' && !fired[p.id] {
+					fired[p.id] = true
+					wtext.WriteString(fmt.Sprintf("{%d}", p.id))
+					goto again
+				}
+				if p.mode == 'c' {
+					wtext.WriteString(fmt.Sprintf("{%d}", p.id))
+					consumed = true
+					break
+				}
+			}
+			if !consumed {
+				wtext.WriteByte('@')
+			}
+		}
+		t := wtext.String()
+		var whtml string
+		switch it % len(docs) {
+		case 3:
+			whtml = "<p>" + strings.Replace(t, "\n", "\n", 1) + "</p>\n"
+		case 4:
+			whtml = "<p><em>" + strings.Trim(t, "*") + "</em></p>\n"
+		case 5:
+			whtml = "<p><a href=\"/u\">" + strings.TrimSuffix(strings.TrimPrefix(t, "["), "](/u)") + "</a></p>\n"
+		default:
+			whtml = "<p>" + t + "</p>\n"
+		}
+		if w := strings.Join(wlog, ",") + "|" + whtml; obs != w {
+			c.Violate("priority-oracle", map[string]string{"role": "b", "components": desc, "document": q([]byte(doc))}, fmt.Sprintf("observed %q, expected by priority %q", obs, w), "priority-oracle")
+		}
+		c.Count("zero-width-scenarios", doc+desc, true)
+	}
 }
 
 // retryScenarios: block probes on the trigger '-' next to the built-in setext heading (100),
